@@ -761,6 +761,7 @@ fn dump_adts<'tcx>(cx: &Cx<'tcx>) -> J {
             ("kind", s(kind)),
             ("path", s(cx.path(did))),
             ("vis", s(vis_str(tcx, cx, did))),
+            ("exported", J::Bool(tcx.effective_visibilities(()).is_exported(item.owner_id.def_id))),
             ("variants", J::Arr(variants)),
             ("sp", cx.span(item.span)),
         ]));
@@ -794,6 +795,7 @@ fn dump_bodies<'tcx>(cx: &Cx<'tcx>) -> J {
         ];
         if matches!(dk, DefKind::Fn | DefKind::AssocFn) {
             v.push(("vis", s(vis_str(tcx, cx, did))));
+            v.push(("exported", J::Bool(tcx.effective_visibilities(()).is_exported(ldid))));
             let sig = tcx.fn_sig(did).instantiate_identity().skip_norm_wip().skip_binder();
             v.push(("inputs", J::Arr(sig.inputs().iter().map(|t| s(cx.ty_str(*t))).collect())));
             v.push(("output", s(cx.ty_str(sig.output()))));
@@ -834,6 +836,7 @@ fn dump_items<'tcx>(cx: &Cx<'tcx>) -> J {
             ("path", s(cx.path(did))),
             ("dk", s(format!("{:?}", dk))),
             ("vis", s(vis_str(tcx, cx, did))),
+            ("exported", J::Bool(tcx.effective_visibilities(()).is_exported(item.owner_id.def_id))),
             ("sp", cx.span(item.span)),
         ]));
     }
